@@ -17,6 +17,7 @@ import ZepidVerif.Lemmas.Relabel
 import ZepidVerif.Lemmas.Msm
 import ZepidVerif.Lemmas.TmleFlip
 import ZepidVerif.Lemmas.IceInv
+import ZepidVerif.Lemmas.SurvGFFlip
 import ZepidVerif.Props.C12
 import ZepidVerif.Props.C07
 import Mathlib.Algebra.Order.Field.Rat
@@ -755,6 +756,27 @@ theorem ice_relabel_invariant (φ ψ : Nat → Nat → Nat) (hψ : ∀ k l, ψ k
   exact IceInv.fit_relab φ ψ hψ true μ (.single g) rows K
 
 
+/-! ### SurvivalGFormula under `A ↦ 1 − A` -/
+
+/-- **survival_flip.**  Recode the exposure of every person-period record (`SurvGF.flipL`: same id, time, outcome;
+    the two predictions of the recoded outcome model exchanged, `h1 ↔ h0`).  Treat-all in the new coding is treat-none
+    in the old one and the natural course stays the natural course (`Plan.flip`); every individual's predicted
+    cumulative incidence, the marginal curve at every time, its index, and the product-limit curve of the renamed arm
+    are unchanged.  (A custom plan is a condition chosen by the user in terms of the coding; it is excluded.) -/
+theorem survival_flip (p : SurvGF.Plan) (hp : p ≠ .custom) (rows : List (SurvGF.LRow F)) :
+    SurvGF.cumInc p.flip (rows.map SurvGF.flipL) = SurvGF.cumInc p rows ∧
+    (∀ t, SurvGF.marginalAt p.flip (rows.map SurvGF.flipL) t = SurvGF.marginalAt p rows t) ∧
+    SurvGF.marginal p.flip (rows.map SurvGF.flipL) = SurvGF.marginal p rows ∧
+    (∀ b t, SurvGF.productLimit (rows.map SurvGF.flipL) (!b) t = SurvGF.productLimit rows b t) := by
+  refine ⟨SurvGF.cumInc_flip p hp rows, SurvGF.marginalAt_flip p hp rows, ?_,
+    fun b t => SurvGF.productLimit_flip rows b t⟩
+  unfold SurvGF.marginal
+  rw [SurvGF.times_flip]
+  apply List.map_congr_left
+  intro t _
+  exact SurvGF.marginalAt_flip p hp rows t
+
+
 /-! ### Closed-form g-estimation of a structural nested mean model -/
 
 /-- **snm_affine.**  `ψ` solves the estimating equations `Σ w(A−π)V_k (Y − A Σ_j ψ_j V_j) = 0` for the outcome
@@ -1016,6 +1038,11 @@ example : Ice.IsCellFit (IceInv.muRelab exPsi P12.exMu) [true, true] (P12.exRows
     Ice.fit true (IceInv.muRelab exPsi P12.exMu) (.single [true, true]) (P12.exRows.map (IceInv.relabelW exPhi)) 2
       = .ok (4 / 5) :=
   ⟨(ice_relabel_invariant exPhi exPsi exPsiPhi P12.exMu P12.exRows 2).2.1 _ P12.exFit, by decide +kernel⟩
+
+-- SurvivalGFormula: the person-period example of `Props/C12.lean` recoded; treat-all there = treat-none here = 2/3 at t = 2
+example : SurvGF.marginalAt (F := ℚ) .none (P12.exLong.map SurvGF.flipL) 2 = 2/3 ∧
+    SurvGF.marginalAt (F := ℚ) .all P12.exLong 2 = 2/3 ∧ SurvGF.marginalAt (F := ℚ) .none P12.exLong 2 = 0 := by
+  decide +kernel
 
 -- g-estimation: a data set whose exposure model (intercept only, π = 1/2) satisfies its score equation; ψ = 2
 def exSnm : List (SnmR.SRow ℚ) := [⟨true, 3, 1, 1/2, fun _ => 1⟩, ⟨false, 1, 1, 1/2, fun _ => 1⟩]
